@@ -4,10 +4,10 @@ import (
 	"crypto/sha256"
 	"encoding/hex"
 	"encoding/json"
-	"go/ast"
-	"os"
 	"fmt"
+	"go/ast"
 	"go/types"
+	"os"
 	"path/filepath"
 	"runtime/debug"
 	"sort"
@@ -16,26 +16,26 @@ import (
 )
 
 type OblResult struct {
-	Name    string  `json:"obligation"`
-	Kind    string  `json:"kind"`
-	Func    string  `json:"function"`
-	Pos     string  `json:"pos,omitempty"`
-	Text    string  `json:"clause,omitempty"`
-	Status  string  `json:"status"` // discharged | failed | undecided | cover-ok | vacuous
-	Result  string  `json:"result"`
-	Backend string  `json:"backend"`
-	TimeS   float64 `json:"time_s"`
-	SMT2    string  `json:"smt2"`
+	Name    string            `json:"obligation"`
+	Kind    string            `json:"kind"`
+	Func    string            `json:"function"`
+	Pos     string            `json:"pos,omitempty"`
+	Text    string            `json:"clause,omitempty"`
+	Status  string            `json:"status"` // discharged | failed | undecided | cover-ok | vacuous
+	Result  string            `json:"result"`
+	Backend string            `json:"backend"`
+	TimeS   float64           `json:"time_s"`
+	SMT2    string            `json:"smt2"`
 	Model   map[string]string `json:"model,omitempty"`
-	Output  string  `json:"solver_output,omitempty"`
+	Output  string            `json:"solver_output,omitempty"`
 }
 
 type FuncResult struct {
-	Key      string
-	Err      string
-	Obls     []*OblResult
-	Dropped  map[string]int
-	vc       *VC
+	Key     string
+	Err     string
+	Obls    []*OblResult
+	Dropped map[string]int
+	vc      *VC
 }
 
 // buildVC generates the obligations of one function under contract.
@@ -70,9 +70,6 @@ func buildVC(prog *Program, fi *FuncInfo) (vc *VC, err error) {
 		}
 	}
 	for i, p := range params {
-		if isStructValue(p.Type()) {
-			vc.fail(fi.Decl.Pos(), "struct-valued parameter %s", p.Name())
-		}
 		v := vc.fresh("p_"+p.Name(), f.sortOf(p.Type()))
 		st.env[envKey{p, ""}] = v
 		vc.entryVals = append(vc.entryVals, NamedTerm{p.Name(), v})
@@ -89,6 +86,34 @@ func buildVC(prog *Program, fi *FuncInfo) (vc *VC, err error) {
 	for _, r := range f.results {
 		if r.Name() != "" && r.Name() != "_" {
 			f.declareZero(st, r)
+		}
+	}
+	// ghost state: every package-level variable of the contract files is materialised now, so that a later
+	// "modifies everything" havoc (which leaves ghost state alone) finds it in the state
+	vc.ghostKeys = map[string]bool{}
+	for _, pk := range prog.Pkgs {
+		if pk.Types == nil || !strings.HasPrefix(pk.PkgPath, "github.com/mazrean/kessoku") {
+			continue
+		}
+		sc := pk.Types.Scope()
+		for _, nm := range sc.Names() {
+			v, ok := sc.Lookup(nm).(*types.Var)
+			if !ok || !prog.isSpecVar(v) {
+				continue
+			}
+			if mt, isMap := v.Type().Underlying().(*types.Map); isMap {
+				ks, vs := vc.mapSorts(mt)
+				key := ghostMapKey(v)
+				vc.heapGet(st, key, ArraySort(ks, vs))
+				vc.ghostKeys[key] = true
+				continue
+			}
+			func() {
+				defer func() { _ = recover() }() // variables of types kvc has no sort for are simply not materialised
+				key := "G:" + v.Pkg().Name() + "." + v.Name()
+				vc.heapGet(st, key, vc.sortOf(v.Type()))
+				vc.ghostKeys[key] = true
+			}()
 		}
 	}
 	// axioms of the package (trusted)
